@@ -402,6 +402,8 @@ def _search_worker(job):
     try:
         f = native.search(q, seed, budget, hi, lo)
         st = native.search.last_stats
+        if st.get('generator_errors'):
+            sys.stderr.write('GENERATOR-ERRORS %s: %d inputs could not be built\n' % (q, st['generator_errors']))
         return f, st.get('tried', 0), bool(st.get('truncated'))
     except Exception:
         return {'function': q, 'seed': seed, 'iteration': -1, 'args': '', 'clause': 'native-harness-error', 'observed': traceback.format_exc()}, 0, False
